@@ -1,12 +1,15 @@
-import UralModel.Lemmas.FacebookNonempty
+import UralModel.Lemmas.FacebookBlank
 /-!
 From "the parser returned this record" to the hypothesis of the round-trip theorem (C19,
 `ural/facebook.py`): the conditions of `reparsable` that say "no earlier route of the parser
 takes the canonical url" hold by themselves for a record the parser returned — because those
-earlier routes did not take the url it was parsed from — and so do the conditions "the field is
+earlier routes did not take the url it was parsed from —, and so do the conditions "the field is
 not empty" (`Lemmas/FacebookNonempty.lean`: repeated slashes are collapsed before routing,
-`parse_qs` holds no blank value, an empty set id is `None`, an empty album is no photo).  What
-is left as a hypothesis is the character-level condition on the fields (`charsOk`).
+`parse_qs` holds no blank value, an empty set id is `None`, an empty album is no photo) and "the
+path-borne field has no white space at its ends, no `/ ? #`, no TAB CR LF" (`pathFieldsClean`,
+from `Lemmas/FacebookBlank.lean`: the blanks around each segment are dropped before routing, the
+segments are pieces of the path `urlsplit` returned).  What is left as a hypothesis is `charsOk`:
+the characters that fail by design (`;`, dot segments, query metacharacters).
 -/
 namespace Ural.Facebook
 open Ural.Py Ural
@@ -39,19 +42,46 @@ def fieldsOk : Parsed → Bool
      | none, none => photoQueryOk id gid aid
      | some p, none =>
        (match gid, aid with
-        | none, some a => segOk p && segOk id && !a.isEmpty && a.all segChar
+        | none, some a => segOk p && segOk id && !a.isEmpty && a.all segChar && !blankLast a
         | _, _ => false)
      | none, some p =>
        (match gid, aid with
-        | none, some a => segOk p && segOk id && !a.isEmpty && a.all segChar
+        | none, some a => segOk p && segOk id && !a.isEmpty && a.all segChar && !blankLast a
         | _, _ => false)
      | some _, some _ => false)
 
-theorem segOk_of {s : Str} (h1 : s.isEmpty = false) (h2 : segChars s = true) : segOk s = true := by
+theorem segChar_of {c : Char} (h1 : cleanChar c = true) (h2 : c ≠ ';') : segChar c = true := by
+  unfold cleanChar at h1
+  unfold segChar
+  simp only [Bool.and_eq_true, decide_eq_true_eq, Bool.not_eq_true'] at h1 ⊢
+  exact ⟨⟨⟨⟨h1.1.1.1, h1.1.1.2⟩, h1.1.2⟩, h2⟩, h1.2⟩
+
+theorem all_segChar_of {s : Str} (h1 : s.all cleanChar = true) (h2 : s.contains ';' = false) :
+    s.all segChar = true := by
+  simp only [List.all_eq_true] at h1 ⊢
+  intro c hc
+  apply segChar_of (h1 c hc)
+  intro e
+  subst e
+  have : s.contains ';' = true := List.contains_iff_mem.mpr hc
+  rw [h2] at this
+  cases this
+
+/-- not empty (`parsed_fields_nonempty`) + a clean segment (`parsed_path_fields_clean`) + no `;`,
+not a dot segment (`charsOk`) = a good segment -/
+theorem segOk_of {s : Str} (h1 : s.isEmpty = false) (h3 : segClean s = true) (h2 : segChars s = true) :
+    segOk s = true := by
   unfold segChars at h2
+  unfold segClean at h3
   unfold segOk
-  simp only [Bool.and_eq_true] at h2
-  simp [h1, h2.1, h2.2]
+  simp only [Bool.and_eq_true, Bool.not_eq_true'] at h2 h3
+  simp [h1, all_segChar_of h3.1.1 h2.1, h2.2, h3.1.2, h3.2]
+
+theorem albumOk_of {a : Str} (h3 : albumClean a = true) (h2 : a.contains ';' = false) :
+    a.all segChar = true ∧ blankLast a = false := by
+  unfold albumClean at h3
+  simp only [Bool.and_eq_true, Bool.not_eq_true'] at h3
+  exact ⟨all_segChar_of h3.1 h2, h3.2⟩
 
 theorem qvalOk_of {s : Str} (h1 : s.isEmpty = false) (h2 : qvalChars s = true) : qvalOk s = true := by
   unfold qvalChars at h2
@@ -65,46 +95,50 @@ theorem optQvalOk_of {o : Option Str} (h1 : optNe o = true) (h2 : optQvalChars o
     simp only [optNe, Bool.not_eq_true'] at h1
     exact qvalOk_of h1 h2
 
-theorem fieldsOk_of (r : Parsed) (hne : noEmpty r = true) (hc : charsOk r = true) : fieldsOk r = true := by
+theorem fieldsOk_of (r : Parsed) (hne : noEmpty r = true) (hcl : pathFieldsClean r = true)
+    (hc : charsOk r = true) : fieldsOk r = true := by
   cases r with
   | user id h =>
     simp only [noEmpty, charsOk, Bool.and_eq_true, Bool.not_eq_true'] at hne hc
     simp only [fieldsOk, hc.1, qvalOk_of hne.1 hc.2, Bool.and_self]
   | handle h =>
-    simp only [noEmpty, charsOk, Bool.not_eq_true'] at hne hc
-    exact segOk_of hne hc
+    simp only [noEmpty, charsOk, pathFieldsClean, Bool.not_eq_true'] at hne hc hcl
+    exact segOk_of hne hcl hc
   | group id h =>
-    cases id <;> cases h <;> simp only [noEmpty, charsOk, optNe, Bool.and_eq_true, Bool.not_eq_true',
-      Bool.false_eq_true] at hne hc
-    · exact segOk_of hne.2 hc
-    · exact segOk_of hne.1 hc
+    cases id <;> cases h <;> simp only [noEmpty, charsOk, pathFieldsClean, optNe, Bool.and_eq_true, Bool.not_eq_true',
+      Bool.false_eq_true] at hne hc hcl
+    · exact segOk_of hne.2 hcl hc
+    · exact segOk_of hne.1 hcl hc
   | post id pid ph gid gh =>
     cases pid <;> cases ph <;> cases gid <;> cases gh <;>
-      simp only [noEmpty, charsOk, optNe, Bool.and_eq_true, Bool.not_eq_true', Bool.false_eq_true,
-        and_true] at hne hc
-    · simp only [fieldsOk, segOk_of hne.2 hc.1, segOk_of hne.1 hc.2, Bool.and_self]
-    · simp only [fieldsOk, segOk_of hne.2 hc.1, segOk_of hne.1 hc.2, Bool.and_self]
-    · simp only [fieldsOk, segOk_of hne.2 hc.1, segOk_of hne.1 hc.2, Bool.and_self]
+      simp only [noEmpty, charsOk, pathFieldsClean, optNe, Bool.and_eq_true, Bool.not_eq_true', Bool.false_eq_true,
+        and_true] at hne hc hcl
+    · simp only [fieldsOk, segOk_of hne.2 hcl.1 hc.1, segOk_of hne.1 hcl.2 hc.2, Bool.and_self]
+    · simp only [fieldsOk, segOk_of hne.2 hcl.1 hc.1, segOk_of hne.1 hcl.2 hc.2, Bool.and_self]
+    · simp only [fieldsOk, segOk_of hne.2 hcl.1 hc.1, segOk_of hne.1 hcl.2 hc.2, Bool.and_self]
     · simp only [fieldsOk, qvalOk_of hne.2 hc.1, qvalOk_of hne.1 hc.2, Bool.and_self]
   | video id pid =>
-    cases pid <;> simp only [noEmpty, charsOk, optNe, Bool.and_eq_true, Bool.not_eq_true', and_true] at hne hc
+    cases pid <;> simp only [noEmpty, charsOk, pathFieldsClean, optNe, Bool.and_eq_true, Bool.not_eq_true',
+      and_true] at hne hc hcl
     · exact qvalOk_of hne hc
-    · simp only [fieldsOk, segOk_of hne.2 hc.1, segOk_of hne.1 hc.2, Bool.and_self]
+    · simp only [fieldsOk, segOk_of hne.2 hcl.1 hc.1, segOk_of hne.1 hcl.2 hc.2, Bool.and_self]
   | photo id gid pid ph aid =>
     cases pid <;> cases ph
     · simp only [noEmpty, charsOk, Bool.and_eq_true, Bool.not_eq_true'] at hne hc
       simp only [fieldsOk, photoQueryOk, qvalOk_of hne.1.1.1.1 hc.1.1, optQvalOk_of hne.1.1.1.2 hc.1.2,
         optQvalOk_of hne.2 hc.2, Bool.and_self]
     · cases gid <;> cases aid <;>
-        simp only [noEmpty, charsOk, optNe, Bool.and_eq_true, Bool.not_eq_true', Bool.false_eq_true,
-          and_true] at hne hc
-      simp only [fieldsOk, segOk_of hne.1.2 hc.1.1, segOk_of hne.1.1 hc.1.2, hne.2, hc.2, Bool.not_false,
-        Bool.and_self]
+        simp only [noEmpty, charsOk, pathFieldsClean, optNe, Bool.and_eq_true, Bool.not_eq_true', Bool.false_eq_true,
+          and_true] at hne hc hcl
+      have ha := albumOk_of hcl.2 hc.2
+      simp only [fieldsOk, segOk_of hne.1.2 hcl.1.1 hc.1.1, segOk_of hne.1.1 hcl.1.2 hc.1.2, hne.2, ha.1, ha.2,
+        Bool.not_false, Bool.and_self]
     · cases gid <;> cases aid <;>
-        simp only [noEmpty, charsOk, optNe, Bool.and_eq_true, Bool.not_eq_true', Bool.false_eq_true,
-          and_true] at hne hc
-      simp only [fieldsOk, segOk_of hne.1.2 hc.1.1, segOk_of hne.1.1 hc.1.2, hne.2, hc.2, Bool.not_false,
-        Bool.and_self]
+        simp only [noEmpty, charsOk, pathFieldsClean, optNe, Bool.and_eq_true, Bool.not_eq_true', Bool.false_eq_true,
+          and_true] at hne hc hcl
+      have ha := albumOk_of hcl.2 hc.2
+      simp only [fieldsOk, segOk_of hne.1.2 hcl.1.1 hc.1.1, segOk_of hne.1.1 hcl.1.2 hc.1.2, hne.2, ha.1, ha.2,
+        Bool.not_false, Bool.and_self]
     · simp only [charsOk, Bool.false_eq_true] at hc
 
 /-! ## segments of a path vs. what the path contains -/
@@ -146,11 +180,6 @@ theorem seg_ne_word (path w : Str) (hhead : path.head? = some '/') (hw : '/' ∉
   exact absurd this (by simp)
 
 /-! ## route by route: the record returned satisfies `reparsable` -/
-
-/-- `path` is empty or starts with a slash (what `urlsplit` returns after an authority) -/
-def PathAbs (path : Str) : Prop := path = [] ∨ path.head? = some '/'
-
-theorem pathsplit_nil : pathsplit [] = [] := by decide
 
 theorem head_of_abs {path : Str} (habs : PathAbs path) (hne : pathsplit path ≠ []) : path.head? = some '/' := by
   rcases habs with h | h
@@ -214,12 +243,12 @@ theorem routePhotos_reparsable (path : Str) (r : Parsed) (habs : PathAbs path)
       · simp only [hid, if_true, Except.ok.injEq, Option.some.injEq] at h
         subst h
         simp only [fieldsOk, Bool.and_eq_true] at hf
-        simp only [reparsable, photoPathOk, hf.1.1.1, hf.1.1.2, hf.1.2, hf.2, w0, w3, nv, hid, Bool.and_self]
+        simp only [reparsable, photoPathOk, hf.1.1.1.1, hf.1.1.1.2, hf.1.1.2, hf.1.2, hf.2, w0, w3, nv, hid, Bool.and_self]
       · simp only [hid, Bool.false_eq_true, if_false, Except.ok.injEq, Option.some.injEq] at h
         subst h
         simp only [fieldsOk, Bool.and_eq_true] at hf
         have hid' : is_facebook_id ((pathsplit path)[0]'(by omega)) = false := by simpa using hid
-        simp only [reparsable, photoPathOk, hf.1.1.1, hf.1.1.2, hf.1.2, hf.2, w0, w3, nv, hid', Bool.not_false,
+        simp only [reparsable, photoPathOk, hf.1.1.1.1, hf.1.1.1.2, hf.1.1.2, hf.1.2, hf.2, w0, w3, nv, hid', Bool.not_false,
           Bool.and_self]
 
 theorem routePosts_reparsable (path : Str) (r : Parsed) (habs : PathAbs path)
@@ -432,13 +461,170 @@ theorem routePeople_shape (path : Str) (r : Parsed) : routePeople path = .ok (so
     simp only [h, if_false, bind, Except.bind, e2]
     shape_done
 
-/-- **a record returned by the router on an absolute path without `//` satisfies the hypothesis
-of the round-trip theorem as soon as its fields are made of ordinary characters** -/
+/-! ## route by route: the path-borne fields are clean segments -/
+
+local macro "route_clean" : tactic =>
+  `(tactic| (simp only [bind, Except.bind, pure, Except.pure, Functor.map, Except.map]
+             repeat' split
+             all_goals (intro hr; cases hr)
+             all_goals simp_all [pathFieldsClean]))
+
+theorem seg_clean (path : Str) (hseg : ∀ x ∈ pathsplit path, segClean x = true) (i : Nat)
+    (hi : i < (pathsplit path).length) : segClean ((pathsplit path)[i]) = true :=
+  hseg _ (List.getElem_mem hi)
+
+/-- the album id is the end of the segment `a.<album>` (or that segment): clean when not empty -/
+theorem albumClean_albumOf (p2 : Str) (h : segClean p2 = true) : albumClean (albumOf p2) = true := by
+  unfold segClean at h
+  simp only [Bool.and_eq_true, Bool.not_eq_true', List.all_eq_true] at h
+  obtain ⟨⟨hall, _⟩, hl⟩ := h
+  unfold albumOf albumClean
+  split
+  · have h1 : (p2.drop 2).all cleanChar = true :=
+      List.all_eq_true.mpr (fun c hc => hall c (List.mem_of_mem_drop hc))
+    have h2 : blankLast (p2.drop 2) = false := by
+      unfold blankLast at hl ⊢
+      rw [List.getLast?_drop]
+      split
+      · rfl
+      · exact hl
+    simp [h1, h2]
+  · have h1 : p2.all cleanChar = true := List.all_eq_true.mpr hall
+    simp [h1, hl]
+
+theorem routeVideos_clean (path : Str) (r : Parsed) (hseg : ∀ x ∈ pathsplit path, segClean x = true) :
+    routeVideos path = .ok (some r) → pathFieldsClean r = true := by
+  unfold routeVideos
+  by_cases h : (pathsplit path).length < 3
+  · simp [h]
+  · have e2 := getIdx_of_lt (pathsplit path) 2 (by omega)
+    have e0 := getIdx_of_lt (pathsplit path) 0 (by omega)
+    have n0 := seg_clean path hseg 0 (by omega)
+    have n2 := seg_clean path hseg 2 (by omega)
+    simp only [h, if_false, bind, Except.bind, e0, e2]
+    route_clean
+
+theorem routePhotos_clean (path : Str) (r : Parsed) (hseg : ∀ x ∈ pathsplit path, segClean x = true) :
+    routePhotos path = .ok (some r) → pathFieldsClean r = true := by
+  unfold routePhotos
+  by_cases h : (pathsplit path).length < 4
+  · simp [h]
+  · have e0 := getIdx_of_lt (pathsplit path) 0 (by omega)
+    have e2 := getIdx_of_lt (pathsplit path) 2 (by omega)
+    have e3 := getIdx_of_lt (pathsplit path) 3 (by omega)
+    have n0 := seg_clean path hseg 0 (by omega)
+    have n3 := seg_clean path hseg 3 (by omega)
+    have na := albumClean_albumOf _ (seg_clean path hseg 2 (by omega))
+    simp only [h, if_false, bind, Except.bind, e0, e2, e3]
+    by_cases ha : (albumOf ((pathsplit path)[2]'(by omega))).isEmpty = true
+    · simp [ha, pure, Except.pure]
+    · have ha' : (albumOf ((pathsplit path)[2]'(by omega))).isEmpty = false := by simpa using ha
+      simp only [ha', Bool.false_eq_true, if_false]
+      route_clean
+
+theorem routePosts_clean (path : Str) (r : Parsed) (hseg : ∀ x ∈ pathsplit path, segClean x = true) :
+    routePosts path = .ok (some r) → pathFieldsClean r = true := by
+  unfold routePosts
+  by_cases h : (pathsplit path).length < 3
+  · simp [h]
+  · have e0 := getIdx_of_lt (pathsplit path) 0 (by omega)
+    have e2 := getIdx_of_lt (pathsplit path) 2 (by omega)
+    have n0 := seg_clean path hseg 0 (by omega)
+    have n2 := seg_clean path hseg 2 (by omega)
+    simp only [h, if_false, bind, Except.bind, e0, e2]
+    by_cases h4 : (pathsplit path).length < 4
+    · simp only [h4, if_true]
+      route_clean
+    · have e1 := getIdx_of_lt (pathsplit path) 1 (by omega)
+      have e3 := getIdx_of_lt (pathsplit path) 3 (by omega)
+      have n1 := seg_clean path hseg 1 (by omega)
+      have n3 := seg_clean path hseg 3 (by omega)
+      simp only [h4, if_false, e1, e3]
+      route_clean
+
+theorem routeGroups_clean (path : Str) (r : Parsed) (hseg : ∀ x ∈ pathsplit path, segClean x = true) :
+    routeGroups path = .ok (some r) → pathFieldsClean r = true := by
+  unfold routeGroups
+  by_cases h : (pathsplit path).length < 2
+  · simp [h]
+  · have e1 := getIdx_of_lt (pathsplit path) 1 (by omega)
+    have n1 := seg_clean path hseg 1 (by omega)
+    simp only [h, if_false, bind, Except.bind, e1]
+    by_cases h4 : (pathsplit path).length < 4
+    · simp only [h4, if_true]
+      route_clean
+    · have e3 := getIdx_of_lt (pathsplit path) 3 (by omega)
+      have n3 := seg_clean path hseg 3 (by omega)
+      simp only [h4, if_false, e3]
+      route_clean
+
+theorem routeHandle_clean (path : Str) (r : Parsed) (hseg : ∀ x ∈ pathsplit path, segClean x = true) :
+    routeHandle path = .ok (some r) → pathFieldsClean r = true := by
+  unfold routeHandle
+  by_cases h : (pathsplit path).isEmpty = true
+  · simp [h]
+  · have hl : 0 < (pathsplit path).length := by
+      cases hp : pathsplit path with
+      | nil => simp [hp] at h
+      | cons x xs => simp
+    have e0 := getIdx_of_lt (pathsplit path) 0 hl
+    have n0 := seg_clean path hseg 0 hl
+    simp only [h, Bool.false_eq_true, if_false, bind, Except.bind, e0]
+    route_clean
+
+/-- the router on a path whose segments are clean returns clean path-borne fields -/
+theorem parseSplit_clean (sp : SplitResult) (r : Parsed) (hseg : ∀ x ∈ pathsplit sp.path, segClean x = true) :
+    parseSplit sp = .ok (some r) → pathFieldsClean r = true := by
+  unfold parseSplit
+  simp only
+  split
+  · intro h; cases h
+  split
+  · intro h; obtain ⟨id, rfl⟩ := routeWatch_shape _ r h; rfl
+  split
+  · exact routeVideos_clean _ r hseg
+  split
+  · intro h; obtain ⟨id, g, a, rfl⟩ := routePhotoQuery_shape _ r h; rfl
+  split
+  · exact routePhotos_clean _ r hseg
+  split
+  · exact routePosts_clean _ r hseg
+  split
+  · intro h; obtain ⟨id, pid, rfl⟩ := routePermalink_shape _ r h; rfl
+  split
+  · exact routeGroups_clean _ r hseg
+  split
+  · intro h; obtain ⟨id, rfl⟩ := routeProfile_shape _ r h; rfl
+  split
+  · intro h; obtain ⟨id, rfl⟩ := routePeople_shape _ r h; rfl
+  · exact routeHandle_clean _ r hseg
+
+/-- the segments of the path the parser routes — the path `urlsplit` returned, the blanks around
+each segment dropped, repeated slashes collapsed — are clean -/
+theorem squeezePath_segClean (sp : SplitResult) (habs : PathAbs sp.path)
+    (hchars : ∀ c ∈ sp.path, pathChar c = true) :
+    ∀ x ∈ pathsplit (squeezePath sp).path, segClean x = true := by
+  intro x hx
+  have ht := routed_segment_trimmed sp.path habs x hx
+  have hc := routed_segment_chars sp.path (fun c => pathChar c = true) hchars x hx
+  have hs := pathsplit_no_slash _ x hx
+  unfold segClean
+  have hall : x.all cleanChar = true := by
+    apply List.all_eq_true.mpr
+    intro c hcx
+    obtain ⟨h1, h2, h3⟩ := pathChar_spec (hc c hcx)
+    have h0 : c ≠ '/' := fun e => hs (e ▸ hcx)
+    simp [cleanChar, h0, h1, h2, h3]
+  simp [hall, ht.1, ht.2]
+
+/-- **a record returned by the router on an absolute path without `//` whose segments are clean
+satisfies the hypothesis of the round-trip theorem as soon as `charsOk` holds** -/
 theorem parseSplit_reparsable (sp : SplitResult) (r : Parsed) (habs : PathAbs sp.path)
-    (hnd : hasInfix sp.path dblSlash = false)
+    (hnd : hasInfix sp.path dblSlash = false) (hseg : ∀ x ∈ pathsplit sp.path, segClean x = true)
     (h : parseSplit sp = .ok (some r)) (hc : charsOk r = true) :
     reparsable r = true := by
-  have hf : fieldsOk r = true := fieldsOk_of r (parseSplit_noEmpty sp r hnd h) hc
+  have hf : fieldsOk r = true :=
+    fieldsOk_of r (parseSplit_noEmpty sp r hnd h) (parseSplit_clean sp r hseg h) hc
   rw [parseSplit_eq] at h
   split at h
   · cases h
@@ -649,7 +835,14 @@ theorem safe_urlsplit_path_abs (u : Str) (sp : SplitResult) (h : safe_urlsplit u
 theorem squeezePath_abs (sp : SplitResult) (h : PathAbs sp.path) : PathAbs (squeezePath sp).path := by
   unfold squeezePath
   rcases h with h | h
-  · left; simp only [h]; exact squeeze_nil
-  · right; simp only []; rw [squeeze_head]; exact h
+  · left; simp only [h]; rw [stripSegments_nil]; exact squeeze_nil
+  · right
+    simp only []
+    obtain ⟨q, hq⟩ : ∃ q, sp.path = '/' :: q := by
+      cases hp : sp.path with
+      | nil => rw [hp] at h; simp at h
+      | cons c t => rw [hp] at h; simp at h; exact ⟨t, by rw [h]⟩
+    rw [squeeze_head, hq, stripSegments_abs]
+    rfl
 
 end Ural.Facebook
